@@ -31,11 +31,11 @@ OCfg(j) == [ops |-> ToSet(j.ops), svc |-> ToSet(j.svc), maxS |-> j.maxS, maxC |-
             bridges |-> ToSet(j.bridges), origins |-> ToSet(j.origins), banned |-> ToSet(j.banned)]
 
 ModelInit ==
-    /\ live = ApplyEntry(S0, Prelude) /\ full = ApplyEntry(S0, Prelude) /\ fold = S0 /\ lastE = Prelude
+    /\ live = ApplyEntry(S0, Prelude) /\ full = ApplyEntry(S0, Prelude) /\ base = S0 /\ fold = S0 /\ lastE = Prelude
     /\ fsmExp = 30 /\ home = [u \in Users |-> "d"] /\ last = None /\ hist = <<>> /\ n = 0 /\ cnt = Cnt0
 
 ModelReset ==
-    /\ live' = ApplyEntry(S0, Prelude) /\ full' = ApplyEntry(S0, Prelude) /\ fold' = S0 /\ lastE' = Prelude
+    /\ live' = ApplyEntry(S0, Prelude) /\ full' = ApplyEntry(S0, Prelude) /\ base' = S0 /\ fold' = S0 /\ lastE' = Prelude
     /\ fsmExp' = 30 /\ home' = [u \in Users |-> "d"] /\ last' = None /\ hist' = <<>> /\ n' = 0 /\ cnt' = Cnt0
 
 TInit == ModelInit /\ l = 0 /\ drift = 0 /\ ev = None /\ TLCSet(1, 0)
@@ -48,6 +48,7 @@ ModelAction(e) ==
     \/ e.a = "Msg"        /\ Msg(e.s, e.cmd, e.arg, e.via)
     \/ e.a = "Snapshot"   /\ SnapshotV(e.mode, e.via)
     \/ e.a = "Restart"    /\ RestartV(e.observe)
+    \/ e.a = "Battery"    /\ UNCHANGED vars      \* behaviour battery on the live node at the end of a program
 
 SessMatches(e) ==
     \A u \in Users :
@@ -57,14 +58,14 @@ SessMatches(e) ==
         /\ m.st \in LiveSt => (o.oper = m.oper /\ o.addr = m.addr /\ ToSet(o.chans) = m.chans)
 
 Matches(e) ==
-    /\ e.res = last'.res
+    /\ e.a \notin {"Battery", "Inject"} => e.res = last'.res     \* an injected entry has no answer
     /\ e.post.rev = live'.rev
     /\ OCfg(e.post.cfg) = live'.cfg
     /\ e.post.exp = fsmExp'
     /\ SessMatches(e)
     /\ \A k \in DOMAIN e.reps :
          LET r == e.reps[k]
-             S == IF r.mode = "replay_log" THEN full ELSE Restored IN
+             S == IF r.mode = "replay_log" THEN full ELSE IF r.mode = "live" THEN live ELSE Restored IN
          r.rev = S.rev /\ OCfg(r.cfg) = S.cfg /\ r.exp = S.cfg.exp
 
 Step ==
